@@ -9,3 +9,8 @@ def run(ctx):
     from .kernels import graph_dod_clause, restated_clause
     ctx.rule("C13-f", "the loop count L that sizes the Gaussian block is the loop-number routine's value on all edges (sum over components)")
     restated_clause(ctx, "C13-f", "preprocessing::TropicalGraph::from_graph", "graph-loops", lambda: graph_dod_clause(ctx, "C13-f"))
+    from .kernels import run_c03_loops
+    run_c03_loops(ctx, "C13-f", soft=True)
+    from . import common
+    ctx.rule("C13-g", "the tail of the x-space point is the caller's: the x-space entry hands its point to the sampling routine unmodified")
+    common.entry_forwards_inputs(ctx, ctx.roles, "C13-g")
